@@ -5,6 +5,6 @@ CONSTANTS
   InitBal = "0"
   MaxLen = 0
   Scenarios = {}
-  Defects = {"hook_no_checks", "unescrow_receiver_only", "wrapper_false_is_success"}
+  Defects = {"hook_no_checks", "unescrow_receiver_only"}
 INVARIANT Report
 CHECK_DEADLOCK FALSE
